@@ -111,7 +111,7 @@ def r3_reclaim_on_stop(ctx):
         if (name.startswith(SEND + '::') or name.startswith(PRIO + '::')) and 'closure' not in name and f.calls(lambda t: t['fn'] in events):
             found.add(name)
     known = set(s for s, e in STOPPERS)
-    excluded = {PRIO + '::pop_frame': 'executes a reset scheduled earlier by schedule_implicit_reset (which reclaimed)',
+    excluded = {PRIO + '::pop_frame': 'executes a reset scheduled earlier by schedule_implicit_reset (reserved capacity reclaimed there; the capacity backing the discarded DATA is C16.R7)',
                 PRIO + '::clear_pending_send': 'connection teardown / drain-time execution of a scheduled reset'}
     for n in sorted(found - known):
         if n in excluded:
@@ -142,6 +142,32 @@ def r3_reclaim_on_stop(ctx):
                 ok = False
                 wit = core.compress_path(f, f.path_between(s, leak[0], cut_blocks=rec, cut_edges=exc_edges) or [])
         r.check(ok, 'reclaim|' + fname, f.file, '%s: every path from the state change to a return passes %s' % (fname.split('::')[-1], '/'.join(x.split('::')[-1] for x in RECLAIMERS)), witness=wit)
+
+
+def r7_discard_frees(ctx):
+    r = ctx.rule('C16.R7', 'PAIR', 'discarding a stream\'s buffered DATA (clear_queue) is followed by reclaim_all_capacity on every path: the window that backed the discarded bytes returns to the connection')
+    F = ctx.facts
+    CQ = PRIO + '::clear_queue'
+    RA = PRIO + '::reclaim_all_capacity'
+    n = 0
+    for name in sorted(set(c for c in F.rcg.get(CQ, ()))):
+        f = F.fns.get(name)
+        if f is None:
+            continue
+        rec = [bi for bi, t in f.calls_to(RA)]
+        for bi, t in f.calls_to(CQ):
+            n += 1
+            reach = f.reachable(f.succ[bi], cut_blocks=rec)
+            leaks = [x for x in f.returns() if x in reach]
+            loops = [x for x in reach if x != bi and x in f.dom.get(bi, ())]
+            ok = bool(rec) and not leaks and not loops
+            wit = None
+            if leaks or loops:
+                wit = core.compress_path(f, f.path_between(bi, (leaks or loops)[0], cut_blocks=rec) or [])
+            r.check(ok, 'discard-then-reclaim|' + name.replace(P, ''), f.loc(bi),
+                    '%s: clear_queue %s' % (name.split('::')[-1], 'is followed by reclaim_all_capacity on every path' if ok else
+                                            'can be left without reclaim_all_capacity afterwards — clear_queue zeroes buffered_send_data / requested_send_capacity, so capacity still assigned to (or handed back to) the stream at that point is lost to the connection for good'), witness=wit)
+    r.floor(n, 3, 'clear_queue call sites')
 
 
 def r4_never_zero(ctx):
@@ -193,6 +219,7 @@ def run(ctx):
     r1_double_entry(ctx)
     r2_bounded_grant(ctx)
     r3_reclaim_on_stop(ctx)
+    r7_discard_frees(ctx)
     r4_never_zero(ctx)
     # R5: shared with C06 (registration, notification, wake capability)
     C06.r2_pending_registered(ctx, 'C16.R5a', only={SEND + '::poll_capacity', P + 'streams::StreamRef::poll_capacity', 'share::SendStream::poll_capacity'})
